@@ -532,6 +532,16 @@ theorem nothing_declared_without_markers (markup : Bytes) (isHtml : Bool)
 example : findDeclared (ofS "<html><head><title>charset and meta, but no tag</title></head>") true = none :=
   (nothing_declared_without_markers _ true (Or.inr (by decide)) (Or.inl (by decide))).1
 
+/-- Both flavours, both `search_entire_document` settings: a text without any `<` declares nothing
+    (in the str flavour too only `<` itself matches the literal `<` — decided over the generated
+    case-folding table). -/
+theorem nothing_declared_without_lt (isStr : Bool) (markup : List Nat) (isHtml entire : Bool)
+    (h : ∀ x ∈ markup, x ≠ 60) : Rx.findDeclaredRx isStr markup isHtml entire = none :=
+  Rx.findDeclaredRx_none_of_no_lt isStr markup isHtml entire h
+
+example : Rx.findDeclaredRx true (ofS "charset=utf-8 encoding='x' ?> meta") true true = none :=
+  nothing_declared_without_lt _ _ _ _ (by decide)
+
 /-! #### well-formed declarations inside the window are found -/
 
 /-- `<?xml … encoding="NAME" …?>` at the start (after optional white space) and within the first
